@@ -236,7 +236,12 @@ func c01MonRun(c *Case, static bool, initial []int, script []string) {
 		ns = 1
 	}
 	var inflight, early []int
-	all := append([]int(nil), initial...)
+	live := map[int]bool{}    // matching namespaces that exist right now
+	ignored := map[int]bool{} // namespaces whose add callback returned without creating informers
+	for _, n := range initial {
+		live[n] = true
+	}
+	sentinel := 900
 	_ = m.mon.Snapshot() // the Synchronization view: everything created from here on is a later change
 	c.Op(fmt.Sprintf("m init statics=%d ns=%s", ns, joinInts(initial)), m.dump(nil))
 	for _, a := range script {
@@ -254,10 +259,76 @@ func c01MonRun(c *Case, static bool, initial []int, script []string) {
 			} else if r == "" {
 				r = "not-returned"
 			}
+		case "nsDel":
+			// the namespace goes away: the delete callback (no yield points) cancels and drops its informers
+			n, _ := strconv.Atoi(f[1])
+			if err := m.fc.Client.CoreV1().Namespaces().Delete(context.TODO(), m.nsName(n), metav1.DeleteOptions{}); err != nil {
+				c.Inconcl = "cannot delete namespace: " + err.Error()
+				return
+			}
+			delete(live, n)
+			gone := false
+			for deadline := time.Now().Add(c01Wait); time.Now().Before(deadline); time.Sleep(2 * time.Millisecond) {
+				if _, _, varying, _ := kem.VerifMonitorState(m.mon); varying[m.nsName(n)] == nil {
+					gone = true
+					break
+				}
+			}
+			if !gone {
+				c.Inconcl = "namespace delete callback did not run in time"
+				return
+			}
 		case "nsStore":
 			n, _ := strconv.Atoi(f[1])
 			m.createNs(n)
-			if a := m.waitPoint("monitor.ns.callback", c01Wait); a == nil {
+			live[n] = true
+			first := c01Wait
+			if len(f) > 2 && f[2] == "again" {
+				first = 2 * time.Second
+			}
+			a := m.waitPoint("monitor.ns.callback", first)
+			if a == nil && first < c01Wait {
+				// No callback reached its first yield point. Slow, or did it return early ("ignore already
+				// started informers")? Decide without a clock: callbacks of the namespace informer run one
+				// at a time in cluster order, so when the callback of a namespace created AFTERWARDS shows
+				// up, the one of namespace n has come and gone.
+				z := sentinel
+				sentinel++
+				m.createNs(z)
+				a = m.waitPoint("monitor.ns.callback", c01Wait)
+				if a == nil {
+					c.Inconcl = "namespace callback did not arrive"
+					return
+				}
+				a.Release()
+				b := m.waitPoint("monitor.ns.stored", c01Wait)
+				if b == nil {
+					c.Inconcl = "namespace callback did not arrive"
+					return
+				}
+				_, _, varying, _ := kem.VerifMonitorState(m.mon)
+				if varying[m.nsName(n)] != nil || varying[m.nsName(z)] == nil {
+					b.Release()
+					c.Inconcl = "namespace callback arrived late"
+					return
+				}
+				// decided: the add callback of namespace n created nothing
+				ignored[n] = true
+				c.Op("m nsStore "+f[1], "ignored")
+				// the sentinel namespace is an ordinary one for the protocol
+				live[z] = true
+				c.Op(fmt.Sprintf("m nsStore %d", z), m.dump(append(append([]int(nil), inflight...), z)))
+				b.Release()
+				if s := m.waitPoint("monitor.ns.started", c01Wait); s == nil {
+					c.Op(fmt.Sprintf("m nsRead %d", z), "hang")
+					return
+				} else {
+					s.Release()
+				}
+				c.Op(fmt.Sprintf("m nsRead %d", z), m.dump(inflight))
+				continue
+			}
+			if a == nil {
 				c.Inconcl = "namespace callback did not arrive"
 				return
 			} else {
@@ -278,9 +349,12 @@ func c01MonRun(c *Case, static bool, initial []int, script []string) {
 				m.nsParked[n] = a
 			}
 			inflight = append(inflight, n)
-			all = append(all, n)
 		case "nsRead":
 			n, _ := strconv.Atoi(f[1])
+			if ignored[n] {
+				c.Op("m "+a, "ignored")
+				continue
+			}
 			m.nsParked[n].Release()
 			delete(m.nsParked, n)
 			if a := m.waitPoint("monitor.ns.started", c01Wait); a == nil {
@@ -301,13 +375,16 @@ func c01MonRun(c *Case, static bool, initial []int, script []string) {
 		}
 		c.Note("mact:" + f[0])
 		if f[0] == "nsStore" {
-			a = "nsStore " + f[1] // `early` is not a protocol matter: the model abstracts from objects
+			a = "nsStore " + f[1] // `early` / `again` are not protocol matters: the model abstracts from objects
 		}
 		c.Op("m "+a, m.dump(inflight))
 	}
 	// everything has settled: no more scheduling
 	// change something in every namespace of the monitor
-	want := append([]int(nil), all...)
+	var want []int
+	for n := range live {
+		want = append(want, n)
+	}
 	if static {
 		want = append(want, 0)
 	}
@@ -321,10 +398,13 @@ func c01MonRun(c *Case, static bool, initial []int, script []string) {
 	// every change ends up either delivered or in the buffer of a still-locked informer: wait for that
 	deadline := time.Now().Add(15 * time.Second)
 	for {
-		_, _, _, buffered := kem.VerifMonitorState(m.mon)
+		_, _, varying, buffered := kem.VerifMonitorState(m.mon)
 		m.mu.Lock()
 		settled := true
 		for _, n := range want {
+			if ignored[n] && varying[m.nsName(n)] == nil {
+				continue // no informers exist for this namespace: nothing will ever be reported from it
+			}
 			if !m.delivered[n] && buffered[m.nsName(n)] == 0 {
 				settled = false
 			}
@@ -350,7 +430,9 @@ func c01MonRun(c *Case, static bool, initial []int, script []string) {
 	}
 	m.mu.Unlock()
 	for _, n := range early {
-		want = append(want, 100+n)
+		if live[n] {
+			want = append(want, 100+n)
+		}
 	}
 	sort.Ints(got)
 	c.Oracle(fmt.Sprintf("m-delivered want=%s got=%s", joinInts(want), joinInts(got)))
@@ -358,21 +440,43 @@ func c01MonRun(c *Case, static bool, initial []int, script []string) {
 
 // c01GenMonScript: EnableKubeEventCb (ea-begin, ea, ea-range, ea-end) interleaved with namespace
 // callbacks (nsStore n, nsRead n; the namespace informer runs them one at a time).
-func c01GenMonScript(rng *Rng, firstNew int) []string {
+func c01GenMonScript(rng *Rng, initial []int, firstNew int) []string {
 	ea := []string{"ea-begin", "ea", "ea-range", "ea-end"}
 	var script []string
 	next := firstNew
 	inflight := 0
 	eaPos := 0
-	for steps := 0; steps < 30; steps++ {
+	live := map[int]bool{} // namespaces that exist and whose add callback has finished
+	var gone []int         // namespaces that were deleted (may come back under the same name)
+	for _, n := range initial {
+		live[n] = true
+	}
+	liveList := func() []int {
+		var l []int
+		for n := range live {
+			l = append(l, n)
+		}
+		sort.Ints(l)
+		return l
+	}
+	dels := 0
+	for steps := 0; steps < 40; steps++ {
 		var opts []string
 		if eaPos < len(ea) {
 			opts = append(opts, "EA", "EA")
 		}
 		if inflight != 0 {
 			opts = append(opts, "READ", "READ")
-		} else if next < firstNew+3 {
-			opts = append(opts, "STORE")
+		} else {
+			if next < firstNew+3 {
+				opts = append(opts, "STORE")
+			}
+			if len(live) > 0 && dels < 3 {
+				opts = append(opts, "DEL")
+			}
+			if len(gone) > 0 {
+				opts = append(opts, "AGAIN", "AGAIN")
+			}
 		}
 		if len(opts) == 0 {
 			break
@@ -389,11 +493,24 @@ func c01GenMonScript(rng *Rng, firstNew int) []string {
 			}
 			inflight = next
 			next++
+		case "AGAIN":
+			i := rng.Intn(len(gone))
+			n := gone[i]
+			gone = append(gone[:i], gone[i+1:]...)
+			script = append(script, fmt.Sprintf("nsStore %d again", n))
+			inflight = n
+		case "DEL":
+			n := PickOne(rng, liveList())
+			delete(live, n)
+			gone = append(gone, n)
+			dels++
+			script = append(script, fmt.Sprintf("nsDel %d", n))
 		case "READ":
 			script = append(script, fmt.Sprintf("nsRead %d", inflight))
+			live[inflight] = true
 			inflight = 0
 		}
-		if eaPos == len(ea) && inflight == 0 && rng.Chance(40) {
+		if eaPos == len(ea) && inflight == 0 && rng.Chance(30) {
 			break
 		}
 	}
@@ -422,6 +539,16 @@ func runC01Monitor(r *Run) {
 		c.Nontrivial = true
 		c01MonRun(c, false, nil, []string{"ea-begin", "ea", "ea-range", "ea-end", "nsStore 1 early", "nsRead 1"})
 	})
+	r.One(8, func(c *Case, rng *Rng) {
+		c.Desc = "corpus: a namespace that appeared after the unlock is deleted and created again under the same name"
+		c.Nontrivial = true
+		c01MonRun(c, false, nil, []string{"ea-begin", "ea", "ea-range", "ea-end", "nsStore 1", "nsRead 1", "nsDel 1", "nsStore 1 again", "nsRead 1"})
+	})
+	r.One(9, func(c *Case, rng *Rng) {
+		c.Desc = "corpus: a namespace that existed at start is deleted and created again while the binding is still locked"
+		c.Nontrivial = true
+		c01MonRun(c, false, []int{1, 2}, []string{"nsDel 1", "ea-begin", "nsStore 1 again", "ea", "nsRead 1", "ea-range", "ea-end"})
+	})
 	n := r.N(40, 600)
 	r.Cases(500000, n, 8, func(c *Case, rng *Rng) {
 		static := rng.Bool()
@@ -429,10 +556,13 @@ func runC01Monitor(r *Run) {
 		for i := 1; i <= rng.Intn(3); i++ {
 			initial = append(initial, i)
 		}
-		script := c01GenMonScript(rng, 10)
+		script := c01GenMonScript(rng, initial, 10)
 		c.Desc = "monitor: " + strings.Join(script, " ")
 		c01MonRun(c, static, initial, script)
 		c.Nontrivial = strings.Contains(c.Desc, "nsStore")
 		c.Note("monitor-case")
+		if strings.Contains(c.Desc, "again") {
+			c.Note("monitor-case:namespace-comes-back")
+		}
 	})
 }
